@@ -26,6 +26,12 @@ R1  antimeridian split (T-ALG + reaching definitions on the CFG + def-use across
     what the driver put into the record, so a length read from the wrong field,
     a record built with the lengths swapped and a wrong property are all
     decided by the same identity.
+All rules read the module after one more preparation (open_module_value_objects): a local that holds an IMMUTABLE
+    VALUE OBJECT of a class of the module - dataclass / NamedTuple of annotated fields, properties and methods that
+    each return one expression, built once from names the function never rebinds, used only through its fields and
+    members - is opened where it is read, in any expression position (arm of a conditional expression, element of a
+    comprehension), so `c = _Crossing(k, sign); c.head(lats)` is the concatenation head() returns with k for the field.
+    A wrong member (slice off by one, lengths swapped) is then judged like the hand-written expression.
 R2-R7 are decided on CLOSED VALUES (class Values): a returned component is
     rewritten over the function's parameters as received, the grid axes and the
     arrays of the horizontal intersection - locals replaced by the definition
@@ -115,7 +121,8 @@ import re
 
 from ..algebra import AlgebraError, normal_form, poly_equal, Rat
 from ..astutil import (MUTATING_METHODS, ancestors, assigned_names, call_name, calls_in, conjuncts, const_value, guards_of,
-                       is_within, kwarg, names_in, norm, single_def_value, stmt_of, stores_to, walk_no_nested)
+                       is_within, kwarg, names_in, norm, open_value_objects, single_def_value, stmt_of, stores_to,
+                       walk_no_nested)
 from ..cfg import CFG
 from ..loader import parent as _parent
 from ..resolve import resolve_call
@@ -3601,11 +3608,31 @@ def view_defs(V, fi, name):
     return [st for t, st, how in stores_to(fi.node) for x in ast.walk(t) if isinstance(x, ast.Name) and x.id == name]
 
 
+def open_module_value_objects(m) -> list:
+    """A third preparation, before the two above: a local that holds an IMMUTABLE VALUE OBJECT of a class of the module
+    (dataclass / NamedTuple of annotated fields whose properties and methods each return one expression over the fields,
+    built once from names the function never rebinds, used only through its fields and members) is opened where it is
+    read (`astutil.open_value_objects`): `c = _Crossing(k, sign); c.head(lats); c.exit_longitude` reads like the
+    expressions the members return, with `k` and `sign` in the place of the fields.  The engine's pass O does the same at
+    statement level and gives up where a member is called in a conditionally evaluated position (an arm of a conditional
+    expression, the element of a comprehension); an expression put in the place of an expression needs no such
+    condition.  -> `qualname:local` of what was opened (idempotent)."""
+    classes = {k: c.node for k, c in m.classes.items() if c.module is m and '.' not in k}
+    done = []
+    if classes:
+        for fi in m.functions.values():
+            if fi.module is m and any(isinstance(x, ast.Call) and isinstance(x.func, ast.Name) and x.func.id in classes
+                                      for x in ast.walk(fi.node)):
+                done += [f'{fi.qualname}:{n}' for n in open_value_objects(fi.node, classes)]
+    return done
+
+
 def run(ctx):
     m = ctx.prog.module(GRID)
     from .c05 import GridValues, rule_lookup, split_tuple_locals
     # the same two preparations as in c05.run (R5 / R7 are that module's rules): tuple locals that are only read by position
     # are taken apart into named locals, and values are closed with the reaching-definition view of aliases
+    open_module_value_objects(m)
     for fi in m.functions.values():
         if '<locals>' not in fi.qualname:
             split_tuple_locals(fi.node)
